@@ -295,21 +295,20 @@ def closeParen : List Char → Option (List Char)
   | c :: r => if c = ')' then some r else none
   | [] => none
 
+/-- `\(tt:tt(?::tt)?\)` -/
+def timeParen : List Char → Option (List Char)
+  | c :: r =>
+    if c = '(' then (hhmm r).bind (fun r1 => ((colonTT r1).bind closeParen).orElse (fun _ => closeParen r1))
+    else none
+  | [] => none
+
+/-- `tt:tt:tt` (the seconds are not optional in this alternative) -/
+def timeBare (s : List Char) : Option (List Char) := (hhmm s).bind colonTT
+
 /-- the optional time `(?:\s*\(tt:tt(?::tt)?\)|\s+tt:tt(?::tt))?`: the rest after it -/
 def timeTail (s : List Char) : List Char :=
-  let s1 := s.dropWhile isSpaceC
-  let alt1 : Option (List Char) :=
-    match s1 with
-    | c :: r =>
-      if c = '(' then
-        match hhmm r with
-        | some r1 => ((colonTT r1).bind closeParen).orElse (fun _ => closeParen r1)
-        | none => none
-      else none
-    | [] => none
-  let alt2 : Option (List Char) :=
-    if s1.length < s.length then (hhmm s1).bind colonTT else none
-  match alt1.orElse (fun _ => alt2) with
+  match (timeParen (s.dropWhile isSpaceC)).orElse
+      (fun _ => if (s.dropWhile isSpaceC).length < s.length then timeBare (s.dropWhile isSpaceC) else none) with
   | some r => r
   | none => s
 
@@ -337,11 +336,10 @@ def dayPart (r1 : List Char) : List Char :=
 
 /-- YYYYMMDD: `[0-9]{4}-month(?:-[0-9]{1,2})?(?:time)?`; every part after the month is optional,
 so the first month alternative that matches decides -/
-def matchYMD (s : List Char) : Option (List Char) :=
-  (((twoDigits s).bind twoDigits).bind dash).bind (fun r =>
-    match monthOpts r with
-    | r1 :: _ => some (timeTail (dayPart r1))
-    | [] => none)
+def ymdCore (s : List Char) : Option (List Char) :=
+  (((twoDigits s).bind twoDigits).bind dash).bind (fun r => ((monthOpts r).head?).map dayPart)
+
+def matchYMD (s : List Char) : Option (List Char) := (ymdCore s).map timeTail
 
 def firstSome {α β} (f : α → Option β) : List α → Option β
   | [] => none
@@ -357,10 +355,10 @@ def yearPart (r : List Char) : Option (List Char) :=
 def dayOpts (s : List Char) : List (List Char) :=
   ((twoDigits s).bind dash).toList ++ ((dig1 s).bind dash).toList ++ [s]
 
-def matchDMY (s : List Char) : Option (List Char) :=
-  match firstSome (fun d => firstSome yearPart (monthOpts d)) (dayOpts s) with
-  | some r => some (timeTail r)
-  | none => none
+def dmyCore (s : List Char) : Option (List Char) :=
+  firstSome (fun d => firstSome yearPart (monthOpts d)) (dayOpts s)
+
+def matchDMY (s : List Char) : Option (List Char) := (dmyCore s).map timeTail
 
 /-- the maximal identifier `[a-zA-Z][-_a-zA-Z0-9]*` at the front -/
 def idRun : List Char → Option (List Char × List Char)
@@ -482,6 +480,132 @@ def lexLine : Nat → List Char → Except Err (List LTok)
           | .error e => .error e
           | .ok ts => .ok (t :: ts)
         else .error .unmodelled
+
+/-! ### spellings: which words are lexemes of which token (used by the statements in Props) -/
+
+def opLexeme : RawOp → List Char
+  | .eq1 => ['='] | .eq2 => ['=', '='] | .ne => ['!', '='] | .re => ['~'] | .nre => ['!', '~']
+  | .le => ['<', '='] | .lt => ['<'] | .ge => ['>', '='] | .gt => ['>']
+
+/-- the spelling the printer uses for a token -/
+def lexeme : LTok → List Char
+  | .fix .from_ => kwFrom
+  | .fix .where_ => kwWhere
+  | .fix .report => kwReport
+  | .fix .star => ['*']
+  | .fix .dot => ['.']
+  | .fix (.op o) => opLexeme o
+  | .fix .and_ => kwAnd
+  | .fix .or_ => kwOr
+  | .fix .not_ => kwNot
+  | .fix .lparen => ['(']
+  | .fix .rparen => [')']
+  | .fix _ => []
+  | .str s => '"' :: s ++ ['"']
+  | .ymd s => s
+  | .dmy s => s
+  | .kwdate s => s
+  | .int s => s
+  | .qid a b => a ++ '.' :: b
+  | .id s => s
+
+/-- `[a-zA-Z][-_a-zA-Z0-9]*` -/
+def isIdent : List Char → Bool
+  | c :: cs => isLetterC c && cs.all isIdC
+  | [] => false
+
+def noMonthPrefix : List Char → Bool
+  | a :: b :: c :: _ => !isMonth3 a b c
+  | _ => true
+
+/-- an identifier that no earlier token class claims: not keyword-prefixed (`from where report and
+or not now`) and not starting with a month name (which the DDMMYY class might claim) -/
+def plainIdent (s : List Char) : Bool :=
+  isIdent s && (dropPrefix? kwFrom s).isNone && (dropPrefix? kwWhere s).isNone &&
+  (dropPrefix? kwReport s).isNone && (dropPrefix? kwAnd s).isNone && (dropPrefix? kwOr s).isNone &&
+  (dropPrefix? kwNot s).isNone && (dropPrefix? kwNow s).isNone && noMonthPrefix s
+
+def isDateYMD : List Char → Bool
+  | [a, b, c, d, '-', m1, m2, '-', d1, d2] =>
+    isDigitC a && isDigitC b && isDigitC c && isDigitC d && isDigitC m1 && isDigitC m2 && isDigitC d1 && isDigitC d2
+  | _ => false
+
+def isIntLexeme : List Char → Bool
+  | '+' :: ds => !ds.isEmpty && ds.all isDigitC
+  | '-' :: ds => !ds.isEmpty && ds.all isDigitC
+  | ds => !ds.isEmpty && ds.all isDigitC
+
+/-- the printer's output alphabet -/
+def printable : LTok → Bool
+  | .fix .from_ | .fix .where_ | .fix .report | .fix .star | .fix .dot | .fix (.op _) | .fix .and_
+  | .fix .or_ | .fix .not_ | .fix .lparen | .fix .rparen => true
+  | .fix _ => false
+  | .str s => s.all (fun c => c ≠ '"' && c ≠ '\\')
+  | .ymd s => isDateYMD s
+  | .dmy _ => false
+  | .kwdate _ => false
+  | .int s => isIntLexeme s
+  | .qid a b => plainIdent a && isIdent b
+  | .id s => plainIdent s
+
+/-- what may follow a date: nothing the optional time of the date pattern could swallow -/
+def dateSafe (rest : List Char) : Bool :=
+  match rest.dropWhile isSpaceC with
+  | [] => true
+  | c :: _ => c ≠ '(' && !isDigitC c
+
+/-- the exact predicate on date spellings: the class's matcher consumes the whole string -/
+def isYMDLexeme (s : List Char) : Bool := matchYMD s = some []
+
+/-- … for the DDMMYY class, tried after YYYYMMDD (which therefore must not match a prefix) -/
+def isDMYLexeme (s : List Char) : Bool := matchYMD s = none && matchDMY s = some []
+
+/-- the content of a quoted string with quote `q`: `[^q\\]*(?:\\.[^q\\]*)*` — no bare quote, every
+backslash followed by some character -/
+def wellQuoted (q : Char) : List Char → Bool
+  | [] => true
+  | c :: r =>
+    if c = q then false
+    else if c = '\\' then
+      match r with
+      | _ :: r' => wellQuoted q r'
+      | [] => false
+    else wellQuoted q r
+
+/-- `w` is a spelling of the token `t`: every spelling the lexer accepts for the classes of the
+condition grammar — the alternative connective spellings, both quote styles with backslash
+escapes, every date spelling of the two date classes, `now`/`:today`, signed integers, identifiers
+and qualified identifiers that no earlier class claims -/
+def spells (w : List Char) : LTok → Bool
+  | .fix .and_ => w = kwAnd || w = ['&'] || w = ['&', '&']
+  | .fix .or_ => w = kwOr || w = ['|'] || w = ['|', '|']
+  | .fix .not_ => w = kwNot || w = ['!']
+  | .fix t => printable (.fix t) && w = lexeme (.fix t)
+  | .str s => (w = '"' :: s ++ ['"'] && wellQuoted '"' s) || (w = '\'' :: s ++ ['\''] && wellQuoted '\'' s)
+  | .ymd s => w = s && isYMDLexeme s
+  | .dmy s => w = s && isDMYLexeme s
+  | .kwdate s => w = s && (s = kwNow || s = ':' :: kwToday)
+  | .int s => w = s && isIntLexeme s
+  | .qid a b => w = a ++ '.' :: b && plainIdent a && isIdent b
+  | .id s => w = s && plainIdent s
+
+def isDateTok : LTok → Bool
+  | .ymd _ => true
+  | .dmy _ => true
+  | _ => false
+
+/-- the text of a list of words: one space after each -/
+def renderW (ws : List (List Char)) : List Char := ws.flatMap (fun w => w ++ [' '])
+
+def wordSafe : List Char → Bool
+  | c :: _ => c ≠ '(' && !isDigitC c
+  | [] => true
+
+/-- a date is followed by nothing or by a word that does not start with `(` or a digit -/
+def seqOKW : List (List Char × LTok) → Bool
+  | [] => true
+  | [_] => true
+  | p :: q :: ps => (!isDateTok p.2 || wordSafe q.1) && seqOKW (q :: ps)
 
 /-! ## Databases -/
 
